@@ -38,4 +38,17 @@ CLAIMS["C19"] = {
     "note": "Trusts: self.problem.surrogate aliases the surrogate; objective/hook do not touch the bookkeeping; loops in callee train() bounded 0/1.",
 }
 
+CLAIMS["C06"] = {
+    "category": "other",
+    "technique": "path enumeration of Job.evaluate with exception edges; handler classification (retry / re-raise / swallow) by the paths of each handler body; event-order rules per path",
+    "text": "Decides on every control-flow path of Job.evaluate (exception edge from every call-bearing statement of the try body to every "
+            "handler that may match; attempt loop unrolled 1-2 times, bound folded to a literal) that: the bound is 5 and exhaustion raises "
+            "RuntimeError; the handlers that retry catch exactly {TimeoutError, RuntimeError} and on each of their paths log a fresh copy "
+            "of the failing vector before re-sampling from gen_vector(parameters) and leave the design non-EVALUATED; every other handler "
+            "re-raises; EVALUATED is only written after the attempt's objective call completed, with the vector untouched until the "
+            "return. This constrains every failure pattern (which calls fail, with which type), including the 4/5-in-a-row boundary the "
+            "randomised test cannot reach.",
+    "note": "Trusts: gen_vector samples in bounds (C08); Individual(vector) copies the vector (checked in C05/C08 rules); pumping argument for attempts > 2.",
+}
+
 NOT_APPLICABLE = {}
